@@ -3,12 +3,13 @@ import os
 import sys
 
 import verif as V
+import locks
 
 sys.path.insert(0, os.path.dirname(os.path.abspath(__file__)))
 import c10_natkern  # noqa: E402  (kernel level: the real nat.Manager together with the natively compiled nat44.c)
 
 PROP = "C10"
-SPEC = ["Bng.Spec.C10"] + c10_natkern.SPEC
+SPEC = ["Bng.Spec.C10"] + c10_natkern.SPEC + ["Bng.Spec.C10Locks"]
 MON = ["overlap", "range", "stable", "attrib"]
 COMPS = [
     V.Component("nat", monitors=MON),
@@ -39,16 +40,17 @@ ASSUME = [
     "`buffer` … `flushrelease` stretch are compared when flushed); at most 40 calls per stretch (below the logger's own 50-record auto-flush); "
     "rotation, file output, the background flushLoop's timing and Stop are not exercised",
 ] + c10_natkern.ASSUME
+ASSUME = ASSUME + [locks.ASSUME]
 
 
 def run(tier, seed):
-    return V.standard_check(PROP, SPEC, COMPS, LEVEL, ASSUME, tier, seed, pre=c10_natkern.pre)
+    return V.standard_check(PROP, SPEC, COMPS, LEVEL, ASSUME, tier, seed, pre=locks.with_locks(c10_natkern.pre))
 
 
 def replay(path):
     ctx = V.Ctx(PROP, "quick", 0)
     try:
         c10_natkern.pre(ctx)
-        return V.replay(PROP, COMPS, path, SPEC)
+        return V.replay(PROP, COMPS, path, SPEC, pre=locks.with_locks())
     finally:
         ctx.cleanup()
